@@ -41,6 +41,20 @@ def run_balance(ctx, r, tier, what=("balance", "push-only-zero", "zero-is-pushed
     return n_paths
 
 
+def _stmt_order(b, bb1, op1, bb2, op2):
+    """The first binop `op1*` in bb1 comes before the first binop `op2*` in bb2 (same block: statement order)."""
+    if bb1 != bb2:
+        return b.dominates(bb1, bb2)
+    i1 = i2 = None
+    for i, st in enumerate(b.stmts(bb1)):
+        if st["k"] == "assign" and st["rv"]["k"] == "binop":
+            if i1 is None and st["rv"]["op"].startswith(op1):
+                i1 = i
+            if i2 is None and st["rv"]["op"].startswith(op2):
+                i2 = i
+    return i1 is not None and i2 is not None and i1 < i2
+
+
 def primitives(ctx, r):
     """The two refcount primitives mean what the balance rule assumes: inc adds one and reports "was zero";
     dec fails on absent/zero, subtracts one, removes the entry and reports the hash exactly when it reached zero."""
@@ -68,8 +82,16 @@ def primitives(ctx, r):
             ok_ret = len(lv) == 1 and len(eqs) == 1
             if ok_ret and adds:
                 ebb = eqs[0][2]
-                ok_ret = b.dominates(ebb, adds[0][0]) and any(
-                    all(x[0] == "const" and x[1] == 0 for x in sl.leaves_of_operand(o[3])) for o in binops_in(b, ebb) if o[1] == "Eq")
+
+                def eq_with(v):
+                    return any(all(x[0] == "const" and x[1] == v for x in sl.leaves_of_operand(o[3])) or
+                               all(x[0] == "const" and x[1] == v for x in sl.leaves_of_operand(o[2]))
+                               for o in binops_in(b, ebb) if o[1] == "Eq")
+                # "was zero" evaluated before the add, or "is now one" evaluated after it
+                before = b.dominates(ebb, adds[0][0]) and (ebb != adds[0][0] or True) and eq_with(0) and \
+                    _stmt_order(b, ebb, "Eq", adds[0][0], "Add") 
+                after = b.dominates(adds[0][0], ebb) and eq_with(1) and _stmt_order(b, adds[0][0], "Add", ebb, "Eq")
+                ok_ret = before or after
             r.check(ok_add and ok_ret, "inc-primitive", b,
                     "%s: count += 1 and returns (count was 0)" % b.path,
                     "%s does not implement 'add one, report whether it was zero' (adds: %d, return: %s)" % (
@@ -86,15 +108,16 @@ def primitives(ctx, r):
                         is_none = bool(lv) and all(l[0] == "agg" and str(l[1]).endswith("::None") for l in lv)
                         # dominated by Eq(count,0) edge after the subtraction
                         for sw in b.normal_blocks():
-                            c = cfgutil.cmp_true_edge(b, sw)
-                            if c is None or c[0] != "Eq" or not subs or not b.dominates(subs[0][0], sw):
+                            c = cfgutil.eq_edges(b, sw)
+                            if c is None or not subs or not b.dominates(subs[0][0], sw):
                                 continue
-                            zero = all(x[0] == "const" and x[1] == 0 for x in sl.leaves_of_operand(c[2]))
+                            zero = all(x[0] == "const" and x[1] == 0 for x in sl.leaves_of_operand(c[1])) or \
+                                all(x[0] == "const" and x[1] == 0 for x in sl.leaves_of_operand(c[0]))
                             if not zero:
                                 continue
-                            if not is_none and cfgutil.edge_dominates(b, (sw, c[3]), bb):
-                                some_ok = bool(removes) and all(cfgutil.edge_dominates(b, (sw, c[3]), cu.site.bb) for cu in removes)
-                            if is_none and cfgutil.edge_dominates(b, (sw, c[4]), bb):
+                            if not is_none and cfgutil.edge_dominates(b, (sw, c[2]), bb):
+                                some_ok = bool(removes) and all(cfgutil.edge_dominates(b, (sw, c[2]), cu.site.bb) for cu in removes)
+                            if is_none and cfgutil.edge_dominates(b, (sw, c[3]), bb):
                                 none_ok = True
             r.check(ok_sub and some_ok and none_ok, "dec-primitive", b,
                     "%s: count -= 1; at zero removes the entry and returns the hash, otherwise None" % b.path,
@@ -219,11 +242,12 @@ def rules(ctx, tier):
             kinds = []
             for sw in blocks:
                 c = cfgutil.cmp_true_edge(b, sw)
-                if c is None or c[0] != "Eq":
+                if c is None or c[0] not in ("Eq", "Ne"):
                     continue
                 la = sl.leaves_of_operand(c[1]) | sl.leaves_of_operand(c[2])
                 if any(x[0] == "call" and x[1] == "std::io::Error::kind" for x in la):
-                    kinds.append((sw, c[3], c[4]))
+                    # (switch, edge on which the kind is the tolerated one, edge on which it is another kind)
+                    kinds.append((sw, c[3], c[4]) if c[0] == "Eq" else (sw, c[4], c[3]))
             r.check(len(kinds) >= 1, "tolerates-only-a-kind:%s" % b.path.split("::")[-1], b,
                     "a failed unlink at %s is tolerated only after a test of the error kind" % site_where(site),
                     "a failed unlink at %s is tolerated without looking at the error kind" % site_where(site), site_where(site))
